@@ -142,6 +142,11 @@ def bindings() -> list[tuple[int, str, str, str]]:
     return sorted(out)
 
 
+def flow_names() -> list[str]:
+    """the names whose bindings are in the table: read by a print into an output file, and `modules`"""
+    return sorted(_flow_names(_source()[1]))
+
+
 def print_tokens() -> int:
     """independent count: NAME tokens `print` followed by `(` inside generate() (tokenize, not ast)"""
     src, fn = _source()
